@@ -223,8 +223,15 @@ def variant_spec_strategy(maps=True, atoms=True, frags=True, reverse=False):
     )
 
 
-def unmapped(smiles):
+def unmapped(smiles, canonical=True):
+    """Atom maps stripped, explicit hydrogens folded.  canonical=False keeps the atom and fragment order of the
+    input writing (so a rewriting of a mapped reaction carries over to the substrate string)."""
     m = parse(smiles)
     for a in m.GetAtoms():
         a.SetAtomMapNum(0)
-    return Chem.MolToSmiles(Chem.RemoveHs(m))
+    m = Chem.RemoveHs(m)
+    if canonical:
+        return Chem.MolToSmiles(m)
+    out = Chem.MolToSmiles(m, canonical=False)
+    assert side_key(out) == side_key(smiles), f"unmapped(canonical=False) changed the molecule: {smiles} -> {out}"
+    return out
